@@ -206,6 +206,33 @@ def _beacon_gate_names(repo):
     return run
 
 
+def keyword_table(repo):
+    """[[rule, alias, [keywords...]]] for every aliased expansion of the grammar (sorted, duplicates removed)"""
+    P = _grammar(repo)
+    rows = set()
+    for r in P.rules:
+        if r.alias is None:
+            continue
+        kws = tuple(k for k in _keyword_seq(P, r) if not k.startswith("<"))
+        rows.add((str(r.origin.name), str(r.alias), kws))
+    return [[a, b, list(c)] for a, b, c in sorted(rows)]
+
+
+def _keywords_kept(repo):
+    """every statement form recorded in contracts/spec/malleable_keywords.json is still written under the same keyword(s)
+    (a grammar may gain statements; it may not respell or drop one: parser and printer share the grammar file, so a respelt
+    keyword round-trips through both and only an independent record notices)"""
+    def run():
+        import json, os
+        rec = json.load(open(os.path.join(os.path.dirname(os.path.dirname(os.path.abspath(__file__))), "contracts", "spec",
+                                          "malleable_keywords.json")))
+        cur = {(a, b, tuple(c)) for a, b, c in keyword_table(repo)}
+        missing = [r for r in rec if (r[0], r[1], tuple(r[2])) not in cur]
+        return not missing, {"backend": "ground (recorded keyword table vs compiled rule list of c2profile.lark)", "recorded": len(rec),
+                             "current": len(cur), "failed": missing[:5]}
+    return run
+
+
 _old3 = obligations_for
 
 
@@ -213,6 +240,7 @@ def obligations_for(prop, repo, cdb):
     out = _old3(prop, repo, cdb)
     if prop in ("C10", "C13", "C11"):
         out.append(("ground:grammar-alias-identifies-statement", _alias_unique(repo)))
+        out.append(("ground:statements-keep-their-keywords", _keywords_kept(repo)))
     if prop in ("C11", "C13"):
         out.append(("ground:builder-matches-grammar:BeaconGateBlock", _builder_matches(repo, "BeaconGateBlock", "beacon_gate_options")))
         out.append(("ground:builder-matches-grammar:ExecuteOptionsBlock", _builder_matches(repo, "ExecuteOptionsBlock", "execute_options")))
